@@ -82,9 +82,10 @@ func classify(status int, body []byte) string {
 }
 
 // cases:
-//   path <hex>            -> tile <namehex> z x y <exthex> | tilejson <namehex> | metadata <namehex> | root | notfound
-//   key <hex>             -> local <hex of joined path> | refused        (filepath.IsLocal + filepath.Join("/root/served", key))
-//   serve <mode> <hex>    -> confined | <status> escaped                 (mode 0: Server.Get, 1: ServeHTTP, 2: raw bytes to a listener)
+//
+//	path <hex>            -> tile <namehex> z x y <exthex> | tilejson <namehex> | metadata <namehex> | root | notfound
+//	key <hex>             -> local <hex of joined path> | refused        (filepath.IsLocal + filepath.Join("/root/served", key))
+//	serve <mode> <hex>    -> confined | <status> escaped                 (mode 0: Server.Get, 1: ServeHTTP, 2: raw bytes to a listener)
 func c11run(line string) (string, []string) {
 	t := newToks(line)
 	switch t.s() {
